@@ -134,7 +134,7 @@ func assignFitness(r *rand.Rand, shape, gen int, pop *genetics.Population) {
 			if gen < 4 {
 				org.Fitness = float64(gen+1) + r.Float64()
 			} else {
-				org.Fitness = 1 + float64(i%7)*1e-3
+				org.Fitness = 1 + float64(i)*1e-5 // distinct values, constant maximum
 			}
 		case fitDistinct:
 			org.Fitness = math.Exp(r.NormFloat64()*2) + float64(i+1)*1e-7
